@@ -466,3 +466,242 @@ theorem abs_line (s : Scan) (F : ReqSpec) (l rest : List Byte) (habs : Abs s F) 
       · simp [Scan.patch, Scan.setPtr, Scan.push, b3, hg]
 
 end VncModel.Ws
+
+namespace VncModel.Ws
+open VncModel.Gen
+
+/-- the bytes of a request made of the given header lines (each followed by CR LF) and the
+terminating empty line -/
+def wfRequest (lines : List (List Byte)) : List Byte := lines.flatMap (· ++ [13, 10]) ++ [13, 10]
+
+theorem scan_lines (lines : List (List Byte)) (tail : List Byte) : ∀ (s : Scan) (F : ReqSpec), Abs s F →
+    (∀ l ∈ lines, WFLine l) → s.len + (lines.flatMap (· ++ [13, 10])).length + 2 ≤ HSMAX - 1 →
+    ∃ s', scanLoop (lines.flatMap (· ++ [13, 10]) ++ tail) s = scanLoop tail s' ∧
+      Abs s' (lines.foldl specLine F) ∧
+      s'.len = s.len + (lines.flatMap (· ++ [13, 10])).length := by
+  induction lines with
+  | nil => intro s F h _ _; exact ⟨s, by simp, by simpa using h, by simp⟩
+  | cons l ls ih =>
+    intro s F habs hwf hlen
+    simp only [List.flatMap_cons, List.length_append, List.length_cons, List.length_nil] at hlen
+    obtain ⟨s1, h1, hlen1, habs1⟩ := abs_line s F l (ls.flatMap (· ++ [13, 10]) ++ tail) habs
+      (hwf l (by simp)) (by omega)
+    obtain ⟨s2, h2, habs2, hl2⟩ := ih s1 (specLine F l) habs1 (fun x hx => hwf x (by simp [hx])) (by omega)
+    refine ⟨s2, ?_, by simpa using habs2, ?_⟩
+    · simp only [List.flatMap_cons, List.append_assoc] at h1 ⊢
+      rw [h1, h2]
+    · simp only [List.flatMap_cons, List.length_append, List.length_cons, List.length_nil]
+      omega
+
+end VncModel.Ws
+namespace VncModel.Ws
+open VncModel.Gen
+
+theorem OptHolds.spec {s : Scan} {po : Option Nat} {vo : Option (List Byte)} (h : OptHolds s po vo) :
+    po.isNone = vo.isNone ∧ po.map s.strAt = vo := by
+  cases po with
+  | none => cases vo <;> simp_all [OptHolds]
+  | some p =>
+    cases vo with
+    | none => simp [OptHolds] at h
+    | some v => simp [Holds.strAt h]
+
+/-- what the value-level fields decide -/
+def specResult (sha1 : List Byte → List Byte) (F : ReqSpec) (unread : List Byte) : HsResult :=
+  if !F.version then .fail else
+  match F.val .key with
+  | none => .fail
+  | some k =>
+    if (F.val .path).isNone ∨ (F.val .host).isNone ∨
+       ((F.val .origin).isNone ∧ (F.val .secOrigin).isNone) then .fail else
+    let ch := chooseProtocol (F.val .protocol)
+    let acc := acceptKey sha1 k
+    let resp := if ch.2.length > 0 then fmt2 C09.handshakeFmt acc ch.2
+                else fmt2 C09.handshakeFmtNoProto acc []
+    .ok resp ch.1 ((F.val .path).getD []) unread
+
+theorem finishHandshake_spec (sha1 : List Byte → List Byte) (s : Scan) (F : ReqSpec) (unread : List Byte)
+    (hp : ∀ f, OptHolds s (s.ptr f) (F.val f)) (hw : s.wspath = F.val .path) (hv : s.version = F.version) :
+    finishHandshake sha1 s unread = specResult sha1 F unread := by
+  obtain ⟨k1, k2⟩ := (hp .key).spec
+  obtain ⟨p1, _⟩ := (hp .path).spec
+  obtain ⟨h1, _⟩ := (hp .host).spec
+  obtain ⟨o1, _⟩ := (hp .origin).spec
+  obtain ⟨so1, _⟩ := (hp .secOrigin).spec
+  obtain ⟨_, pr2⟩ := (hp .protocol).spec
+  unfold finishHandshake specResult
+  rw [hv, p1, h1, o1, so1, pr2, hw]
+  cases hk : s.ptr .key with
+  | none =>
+    rw [hk] at k1 k2
+    have : F.val .key = none := by simpa using k2.symm
+    simp [this]
+  | some k =>
+    rw [hk] at k2
+    simp only [Option.map_some] at k2
+    rw [← k2]
+
+/-- the empty line ends the scan (no Hixie key1/key2 pair seen) -/
+theorem scan_blank (rest : List Byte) (s : Scan) (F : ReqSpec) (habs : Abs s F)
+    (hk : ¬ (F.key1 = true ∧ F.key2 = true)) (hlen : s.len + 2 ≤ HSMAX - 1) :
+    ∃ sF, scanLoop (13 :: 10 :: rest) s = (sF, rest, .blank) ∧ (∀ f, OptHolds sF (sF.ptr f) (F.val f)) ∧
+      sF.wspath = F.val .path ∧ sF.version = F.version := by
+  have hM : HSMAX = 4096 := rfl
+  have hls : s.linestart = s.buf.length := habs.atStart
+  rw [scanLoop]
+  have c1 : ¬ s.len ≥ HSMAX - 1 := by omega
+  have c13 : ¬ ((13 : Byte) = 10) := by decide
+  simp only [c1, if_false, c13, and_false]
+  rw [scanLoop]
+  have hl1 : (s.push 13).len = s.len + 1 := by simp [Scan.push, Scan.len]
+  have c2 : ¬ (s.push 13).len ≥ HSMAX - 1 := by omega
+  have hline : ((s.push 13).push 10).line = [13, 10] := by
+    simp [Scan.line, Scan.push, hls]
+  have hllen : ((s.push 13).push 10).len - ((s.push 13).push 10).linestart ≥ 2 := by
+    simp only [Scan.push, Scan.len, List.length_append, List.length_cons, List.length_nil, hls]
+    omega
+  have hkk : ¬ (((s.push 13).push 10).key1 = true ∧ ((s.push 13).push 10).key2 = true ∧
+      ((s.push 13).push 10).len + 8 < HSMAX) := by
+    intro ⟨a, b, _⟩
+    apply hk
+    simp only [Scan.push] at a b
+    exact ⟨habs.k1 ▸ a, habs.k2 ▸ b⟩
+  simp only [c2, if_false, hllen, and_self, if_true, hline, hkk]
+  refine ⟨_, rfl, ?_, by simp [Scan.push, habs.wspath], by simp [Scan.push, habs.ver]⟩
+  intro f
+  have h0 := habs.ptrs f
+  simp only [Scan.push]
+  refine OptHolds.mono h0 (fun p v h => ?_)
+  have h1 := Holds.push h 13 (by rw [habs.atStart]; exact Nat.le_refl _)
+  have h2 := Holds.push h1 10 (by simp [Scan.push, Scan.len, hls])
+  exact Holds.congr h2 rfl (Nat.le_refl _)
+
+end VncModel.Ws
+namespace VncModel.Ws
+open VncModel.Gen
+
+theorem Abs_init : Abs {} {} :=
+  ⟨rfl, fun _ => by simp [OptHolds], rfl, rfl, rfl, rfl⟩
+
+/-- **well-formed requests**: header lines without LF / NUL, each terminated by CR LF, an empty line
+at the end, at most 4095 bytes, no Hixie key1+key2 pair: the byte-wise scanner (offsets, NUL
+patches) decides exactly what the value-level reading of the lines (`specLine`) says; what follows
+the request is left unread. -/
+theorem handshake_wellformed (sha1 : List Byte → List Byte) (lines : List (List Byte)) (rest : List Byte)
+    (ending : HsEnd) (hwf : ∀ l ∈ lines, WFLine l) (hlen : (wfRequest lines).length ≤ HSMAX - 1)
+    (hget : pGet.isPrefixOf (wfRequest lines ++ rest) = true)
+    (hk : ¬ ((lines.foldl specLine {}).key1 = true ∧ (lines.foldl specLine {}).key2 = true)) :
+    handshake sha1 (wfRequest lines ++ rest) ending =
+      specResult sha1 (lines.foldl specLine {}) rest := by
+  unfold handshake
+  simp only [hget, Bool.not_true, Bool.false_eq_true, if_false]
+  have hl' : (lines.flatMap (· ++ [13, 10])).length + 2 ≤ HSMAX - 1 := by
+    simpa [wfRequest] using hlen
+  obtain ⟨s1, h1, habs1, hlen1⟩ := scan_lines lines (13 :: 10 :: rest) {} {} Abs_init hwf
+    (by simpa [Scan.len] using hl')
+  obtain ⟨sF, h2, hp, hw, hv⟩ := scan_blank rest s1 _ habs1 hk
+    (by rw [hlen1]; simp only [Scan.len, List.length_nil] ; omega)
+  have hreq : wfRequest lines ++ rest = lines.flatMap (· ++ [13, 10]) ++ 13 :: 10 :: rest := by
+    simp [wfRequest]
+  rw [hreq, h1, h2]
+  simp only [reduceCtorEq, false_or, false_and, if_false]
+  exact finishHandshake_spec sha1 sF _ rest hp hw hv
+
+end VncModel.Ws
+namespace VncModel.Ws
+open VncModel.Gen
+
+/-- prefix test against a line that starts with a header name `n` (any letter case), when the
+prefix is not longer than the name -/
+theorem hasPrefixCI_short (p n x : List Byte) (h : p.length ≤ n.length) :
+    hasPrefixCI p (n ++ x) = ((n.map lowerB).take p.length == p.map lowerB) := by
+  simp only [hasPrefixCI, List.length_append]
+  have h1 : p.length ≤ n.length + x.length := by omega
+  simp only [h1, decide_true, Bool.true_and, List.take_append_of_le_length h, List.map_take]
+
+/-- ... and when it is longer but already differs inside the name -/
+theorem hasPrefixCI_long (p n x : List Byte) (h : n.length < p.length)
+    (hd : (p.map lowerB).take n.length ≠ n.map lowerB) : hasPrefixCI p (n ++ x) = false := by
+  simp only [hasPrefixCI, Bool.and_eq_false_iff, decide_eq_false_iff_not, beq_eq_false_iff_ne]
+  right
+  intro heq
+  apply hd
+  have := congrArg (List.take n.length) heq
+  rw [← this, ← List.map_take, List.take_take, Nat.min_eq_left (by omega),
+    List.take_append_of_le_length (Nat.le_refl _), List.take_length]
+
+theorem not_get_of_first (n x : List Byte) (c : Byte) (t : List Byte) (hn : n = c :: t) (hc : c ≠ 71) :
+    pGet.isPrefixOf (n ++ x) = false := by
+  subst hn
+  simp [pGet, List.isPrefixOf, hc, Ne.symm hc]
+
+end VncModel.Ws
+namespace VncModel.Ws
+open VncModel.Gen
+
+/-- classification of a line that starts with the header name `n` (in any letter case), for the
+header names the handshake needs -/
+theorem lineKind_of_name (n x : List Byte) (q : List Byte) (hq : n.map lowerB = q) :
+    (q = pKey → lineKind (n ++ x) = .hdr .key 19) ∧
+    (q = pHost → lineKind (n ++ x) = .hdr .host 6) ∧
+    (q = pOrigin → lineKind (n ++ x) = .hdr .origin 8) ∧
+    (q = pProtocol → lineKind (n ++ x) = .hdr .protocol 24) ∧
+    (q = pSecOrigin → lineKind (n ++ x) = .hdr .secOrigin 22) ∧
+    (q = pVersion → lineKind (n ++ x) = .version) := by
+  have hlen : n.length = q.length := by rw [← hq]; simp
+  have key : ∀ (target : List Byte), q = target → target ≠ [] → (∀ c ∈ target.head?, c ≠ 103) →
+      pGet.isPrefixOf (n ++ x) = false := by
+    intro target ht hne hh
+    subst ht
+    cases n with
+    | nil => exact absurd hq.symm hne
+    | cons c t =>
+      apply not_get_of_first _ x c t rfl
+      intro hc
+      subst hc
+      simp only [List.map_cons] at hq
+      have := hh (lowerB 71) (by rw [← hq]; simp)
+      exact this (by decide)
+  -- evaluation of one prefix test for a name whose lower-case form is the literal `q`
+  have ev : ∀ p : List Byte, hasPrefixCI p (n ++ x) =
+      if p.length ≤ q.length then (q.take p.length == p.map lowerB)
+      else if (p.map lowerB).take q.length ≠ q then false else hasPrefixCI p (n ++ x) := by
+    intro p
+    by_cases h : p.length ≤ q.length
+    · simp only [h, if_true]; rw [hasPrefixCI_short p n x (by omega), hq]
+    · simp only [h, if_false]
+      by_cases hd : (p.map lowerB).take q.length ≠ q
+      · rw [if_pos hd]
+        exact hasPrefixCI_long p n x (by omega) (by rw [hlen, hq]; exact hd)
+      · rw [if_neg hd]
+  refine ⟨?_, ?_, ?_, ?_, ?_, ?_⟩ <;> intro h <;>
+    (have hg := key q rfl (by rw [h]; decide) (by rw [h]; decide)
+     unfold lineKind
+     rw [hg, ev pHost, ev pOrigin, ev pKey1, ev pKey2, ev pProtocol, ev pSecOrigin, ev pKey, ev pVersion]
+     subst h
+     simp +decide)
+
+end VncModel.Ws
+
+namespace VncModel.Ws
+
+/-- a header line `name ++ value` whose name is one of the recognised ones in any letter case
+contributes exactly its value -/
+theorem specLine_of_name (F : ReqSpec) (n v : List Byte) :
+    (n.map lowerB = pKey → specLine F (n ++ v) = F.set .key v) ∧
+    (n.map lowerB = pHost → specLine F (n ++ v) = F.set .host v) ∧
+    (n.map lowerB = pOrigin → specLine F (n ++ v) = F.set .origin v) ∧
+    (n.map lowerB = pProtocol → specLine F (n ++ v) = F.set .protocol v) ∧
+    (n.map lowerB = pSecOrigin → specLine F (n ++ v) = F.set .secOrigin v) := by
+  obtain ⟨h1, h2, h3, h4, h5, _⟩ := lineKind_of_name n (v ++ [13, 10]) _ rfl
+  have hd : ∀ k : Nat, n.length = k → (n ++ v).drop k = v := by
+    intro k hk; rw [← hk]; simp
+  refine ⟨?_, ?_, ?_, ?_, ?_⟩ <;> intro h <;> unfold specLine <;>
+    rw [List.append_assoc]
+  · rw [h1 h]; simp only; rw [hd 19 (by rw [← List.length_map (f := lowerB), h]; rfl)]
+  · rw [h2 h]; simp only; rw [hd 6 (by rw [← List.length_map (f := lowerB), h]; rfl)]
+  · rw [h3 h]; simp only; rw [hd 8 (by rw [← List.length_map (f := lowerB), h]; rfl)]
+  · rw [h4 h]; simp only; rw [hd 24 (by rw [← List.length_map (f := lowerB), h]; rfl)]
+  · rw [h5 h]; simp only; rw [hd 22 (by rw [← List.length_map (f := lowerB), h]; rfl)]
+
+end VncModel.Ws
